@@ -87,10 +87,11 @@ def parseItemsG (strict : Bool) : Nat → Nat → Bytes → Except Err (List Nod
 end
 
 /-- `Parse(blob)`: empty input and trailing bytes are `ErrInvalidMsgpack`.
-    Fuel: a value costs one unit and at least one byte; an array element costs one more unit
-    for the loop step, so `2 * length` is never exhausted before the input is. -/
+    Fuel: a value costs one unit and at least one byte; a loop step costs one more unit (and,
+    for a map, at least the key's code byte), so `2 * length - 1` is exhausted only when the
+    input is: `parseNodeG` is entered with `fuel ≥ 2·|b| - 1`, the loops with `fuel ≥ 2·|b|`. -/
 def parseG (strict : Bool) (b : Bytes) : Except Err Node :=
-  match parseNodeG strict (2 * b.length) b with
+  match parseNodeG strict (2 * b.length - 1) b with
   | .error e => .error e
   | .ok (t, []) => .ok t
   | .ok (_, _ :: _) => .error .msgpack
